@@ -6,6 +6,7 @@
 package c16
 
 import (
+	"strconv"
 	"context"
 	"fmt"
 	"slices"
@@ -290,9 +291,34 @@ func runSeq(ops []op, w *world) (msg string, hang bool) {
 					}
 				}
 			}
+			// the entry point: RegisterTag, or one of the typed helpers that build the name
+			register := func() *log.Tag { return log.RegisterTag(name) }
+			if e := (o.Var + o.Level) % 4; e > 0 {
+				main := []string{"", "app", "biz", "rpc"}[e]
+				sub := "def"
+				if o.K == "RegisterTagNew" {
+					sub = "c16x" + strconv.Itoa(len(tagPool))
+					for i := range tagPool {
+						if !w.registered["_"+main+"_c16x"+strconv.Itoa(i+1)] {
+							sub = "c16x" + strconv.Itoa(i+1)
+							break
+						}
+					}
+				}
+				name = "_" + main + "_" + sub
+				register = func() *log.Tag {
+					switch main {
+					case "app":
+						return log.RegisterAppTag(sub, "")
+					case "biz":
+						return log.RegisterBizTag(sub, "")
+					}
+					return log.RegisterRPCTag(sub, "")
+				}
+			}
 			all := log.GetAllTags()
 			var tg *log.Tag
-			p, blocked := do(func() { tg = log.RegisterTag(name) })
+			p, blocked := do(func() { tg = register() })
 			if blocked {
 				return fail("RegisterTag blocked"), true
 			}
